@@ -313,7 +313,9 @@ def work_retrans(case):
             return [('request-never-sent', 'the %s request is not sent at all' % kind)], (0, False, False)
         res = [r for r in judge_retrans(kind, obs, False) if r[0] in ('daemon-died', 'retransmit-after-answer', 'sad-mismatch', 'not-identical')]
         if obs['accepted_at'] is None:
-            raise HarnessError('coincide %s/%d: the answer was never delivered' % (kind, k))
+            # transmission k+1 of the request never appeared on the wire (or nobody answered it): the plain loss cases say why
+            return [('transmission-missing:answer-in-the-timeout-pass', 'transmission %d of the %s request was never seen (%d '
+                     'transmissions in all), so its answer could not arrive' % (k + 1, kind, len(obs['tx'])))], (len(obs['tx']), False, False)
         if kind not in ('delete-ike', 'delete-after-rekey') and not obs['still_held'] and not kind.startswith('rekey-ike'):
             res.append(('given-up-although-answered', 'the answer became readable in the pass in which the timer ran out, and the '
                         'IKE_SA was given up all the same'))
